@@ -102,6 +102,17 @@ PROPS = {
             "the table (0x00,32) (0x08,20) (0x10,20) and the four prefixes iota/atoi/smr/rms are the 'known' versions and prefixes of the statement",
         ],
     ),
+    "C06": dict(
+        pkg="c06",
+        variants=[[], ["purego"]],
+        quick=T(8, 1, 900),
+        thorough=T(16, 25, 3400),
+        assumptions=[
+            "harness/ref/curl: scalar Curl-P-81 from the truth-table definition (self-checked on the 300 pinned Curl-P-81 vectors incl. multi-block absorb and squeeze; cross-checked against iota.go/curl in its own unit test)",
+            "half of the shards run the build with -tags purego (portable permutation), half the default build (assembly on amd64)",
+            "lanes >= n and batch sizes that vary between calls of one instance are not asserted; absorb after squeeze is a documented panic and not generated",
+        ],
+    ),
     "C07": dict(
         pkg="c07",
         quick=T(4, 1, 600),
@@ -130,6 +141,18 @@ PROPS = {
         thorough=T(16, 60, 3000, fuzz=[dict(name="FuzzParsePath", count=3000000)]),
         assumptions=[
             "the reference parser (harness/c10, hand-written, base 10, no regexp/strconv) is the specification of the accepted language",
+        ],
+    ),
+    "C20": dict(
+        pkg="c20",
+        variants=[[], ["purego"]],
+        quick=T(8, 1, 900),
+        thorough=T(16, 60, 3400),
+        assumptions=[
+            "harness/ref/curl (scalar truth-table Curl-P-81, validated on pinned vectors) defines the per-lane result",
+            "memory safety of the assembly is observed with mmap'ed buffers flush against 1 MiB PROT_NONE guard regions on both sides (two placements) and debug.SetPanicOnFault; the routine's addresses are input-independent (constant-bound loops, no data-dependent branch), so each guarded execution exercises every memory access of the routine as checked in; an access further than 1 MiB from the buffers that happens to hit mapped memory would be missed",
+            "other architectures cannot be executed here; -tags purego on amd64 selects the same portable Go source",
+            "lanes containing the unused pair (0,0) are only compared between the two routines (Curl-P does not define them)",
         ],
     ),
 }
